@@ -6,7 +6,7 @@ precision counter, cost, calculated/generated flags and clearing state are compa
 Oracle (property text, Fractions): ledger is also run on the same journal with every rule removed;
 with rules, every accepted transaction must show exactly the rule-free rows, untouched and in order,
 followed by one posting per rule line for every rule that precedes it in the file (in file order) and
-every rule-free, non-generated posting matching that rule's predicate (in posting order), with the
+every rule-free posting (written, or made by finalize from an elided amount) matching that rule's predicate (in posting order), with the
 rule line's account and kind and the exact amount (multiplier x matched amount in the matched
 commodity, or the fixed amount as written); nothing else may change; an extension whose must-balance
 postings are off by a whole unit must be rejected, an exactly balanced one must not be."""
@@ -19,8 +19,8 @@ META = dict(
     id='C16',
     level='proof',
     technique='Coq proof about a transcription of auto_xact_t::extend_xact / post_pred / xact_base_t::verify / the add_xact rule loop (extension = input ++ concat_map over the matching non-generated postings; generated postings never re-match for any number and order of rules; rules only reach later transactions; exact multiplication; the memoised quick matcher equals the full predicate; unbalanced extension rejected) + differential correspondence against ledger',
-    level_text='Theorems in coq/Properties/Properties_C16.v are stated for the executable model of extend_xact (snapshot loop skipping ITEM_GENERATED postings, quick matcher with memo and fallback, amount multiply/copy, flags and state of the new posting, verify when a new posting must balance) inside the journal loop that keeps the rule list in file order and applies it after finalize. The model is tied to the code by running whole generated journals through ledger and through the extracted model and comparing, per transaction, acceptance and error class and, per posting, account, kind, exact rational amount and precision counter, cost, flags and state.',
-    level_note='Known finding F33 (Properties_C16.elided_commodity_postings_extended_refuted): the postings finalize makes for the second and later commodities of an elided amount carry ITEM_GENERATED and are skipped by rules; the model is faithful to that. Trusted as C01 (finalize is the C01/C02 model). Regular expressions are restricted to literal, case-insensitive substrings; predicates to account / payee matches and `amount < LIT`, `amount > LIT` under ! & |. Not modelled: rule lines with costs or amount expressions, `$account` and %(format) account names, notes/tags and assert/check lines of a rule, --strict/--pedantic, period transactions.',
+    level_text='Theorems in coq/Properties/Properties_C16.v are stated for the executable model of extend_xact (snapshot loop skipping the postings made by rules: ITEM_GENERATED without POST_CALCULATED, quick matcher with memo and fallback, amount multiply/copy, flags and state of the new posting, verify when a new posting must balance) inside the journal loop that keeps the rule list in file order and applies it after finalize. The model is tied to the code by running whole generated journals through ledger and through the extracted model and comparing, per transaction, acceptance and error class and, per posting, account, kind, exact rational amount and precision counter, cost, flags and state.',
+    level_note='F33 (rules skipped the postings finalize makes for the second and later commodities of an elided amount) was repaired by /repo e69e5ce; the model follows the fixed code (a posting is skipped only when ITEM_GENERATED without POST_CALCULATED), Properties_C16.journal_extension_every_posting is the full statement and the oracle key elided-commodity-posting-not-matched is a violation. Trusted as C01 (finalize is the C01/C02 model). Regular expressions are restricted to literal, case-insensitive substrings; predicates to account / payee matches and `amount < LIT`, `amount > LIT` under ! & |. Not modelled: rule lines with costs or amount expressions, `$account` and %(format) account names, notes/tags and assert/check lines of a rule, --strict/--pedantic, period transactions.',
     design_ref='DESIGN.md section 7 C16',
     assumptions=['commodities $ EUR AAA CCC in plain styles, every amount written with its commodity\'s usual number of decimals',
                  'account and payee patterns are literal alphanumeric substrings (regex = case-insensitive substring)',
@@ -571,7 +571,7 @@ def run_clean(ctx, res, name, items, with_rules):
 
 
 # ---------------------------------------------------------------------------- oracle
-def expected_extension(rules_before, payee, base_rows, skip_finalize_generated=True):
+def expected_extension(rules_before, payee, base_rows, skip_finalize_generated=False):
     """the postings the property text requires after the rule-free rows, or None when a predicate's
     outcome is not determined by the text (a comparison across commodities).
     -> list of (rule number, acct, kind, sym, value, must_balance, id of the matched posting x rule)"""
@@ -648,9 +648,10 @@ def oracle(res, items, text, rows, rejected, base_rows, base_rejected):
             res.count('oracle:undetermined-predicate')
             i += 1
             continue
-        # the same, counting the postings finalize made from an elided amount as postings (finding F33)
-        ext_text = expected_extension(rules_seen, payee, base, skip_finalize_generated=False)
-        variants = [ext] + ([ext_text] if ext_text is not None and ext_text != ext else [])
+        # what the code before /repo e69e5ce did (F33, repaired): the postings finalize makes from an elided amount that
+        # stands for several commodities were skipped.  Only used to name that failure precisely.
+        ext_old = expected_extension(rules_seen, payee, base, skip_finalize_generated=True)
+        variants = [ext]
         noamt = [e for e in ext if e[1] == 'NOAMOUNT']
         has_cost = any(r['cost'] != r['amt'] for r in base)
         if i in rejected:
@@ -690,30 +691,30 @@ def oracle(res, items, text, rows, rejected, base_rows, base_rejected):
             continue
         suffix = got[n:]
         want = [(a, k, s, v) for (_, a, k, s, v, _, _) in ext]
-        want_text = [(a, k, s, v) for (_, a, k, s, v, _, _) in ext_text] if ext_text is not None else want
+        want_old = [(a, k, s, v) for (_, a, k, s, v, _, _) in ext_old] if ext_old is not None else want
         have = [(r['acct'], r['kind'], r['amt'][0], r['amt'][1]) for r in suffix]
         # a zero amount has no visible commodity requirement
         norm = lambda l: [(a, k, (s if v != 0 else None), v) for (a, k, s, v) in l]
         matched = True
-        if norm(have) == norm(want_text):
-            ext = ext_text if ext_text is not None else ext
-        elif norm(have) == norm(want):
-            # finding F33: exactly the postings for the finalize-made part of an elided amount are missing
+        if norm(have) == norm(want):
+            pass
+        elif norm(have) == norm(want_old):
+            # F33 (repaired): exactly the postings for the finalize-made part of an elided amount are missing
             res.violations.append(dict(key='elided-commodity-posting-not-matched',
                                        desc='a posting made by finalize for the second commodity of an elided amount matches a rule but received no postings',
-                                       case=case, observed=[str(h) for h in have], required=[str(w) for w in want_text]))
+                                       case=case, observed=[str(h) for h in have], required=[str(w) for w in want]))
         else:
             matched = False
             if not rules_seen:
                 key = 'postings-added-before-any-rule'
-            elif len(have) > len(want_text):
+            elif len(have) > len(want):
                 key = 'extra-generated-postings'
             elif len(have) < len(want):
                 key = 'missing-generated-postings'
             else:
                 key = 'wrong-generated-posting'
             res.violations.append(dict(key=key, desc='generated postings differ from one-per-rule-line-per-match', case=case,
-                                       observed=[str(h) for h in have], required=[str(w) for w in want_text]))
+                                       observed=[str(h) for h in have], required=[str(w) for w in want]))
         if matched and any(not r['generated'] for r in suffix):
             res.violations.append(dict(key='generated-flag-missing', desc='a rule-made posting is not flagged generated', case=case,
                                        observed=[r['text'] for r in suffix], required='generated'))
@@ -805,6 +806,18 @@ def fixed_journals():
     t1, t2, t3 = food(10), food(12), food(20)
     t1.state, t2.state, t3.state = 1, 2, 0
     js.append([teach(), r6, t1, t2, t3])
+    # F33 (repaired by /repo e69e5ce): an elided amount standing for two commodities; the rule must fire on both
+    # postings finalize gives Assets:Cash, exactly as for the written-out twin; a second rule matching the first
+    # rule's account must still see none of the rule-made postings
+    r7 = Rule(Pred('acct', 'Cash'), [Line('Budget:Cash', 'V', mult(('1', 0)))], '/Cash/')
+    r7.shape = 'virtual-only'
+    r8 = Rule(Pred('acct', 'Budget'), [Line('Tax:Fed', 'V', mult(('0.5', 1)))], '/Budget/')
+    r8.shape = 'virtual-only'
+    two = lambda elide: Txn([P('Expenses:Food', 'R', A(F(10), 2, '$')), P('Expenses:Food', 'R', A(F(5), 2, 'EUR'))] +
+                            ([P('Assets:Cash')] if elide else [P('Assets:Cash', 'R', A(F(-10), 2, '$')), P('Assets:Cash', 'R', A(F(-5), 2, 'EUR'))]),
+                            '2020/03/01')
+    js.append([teach(), r7, r8, two(True), two(False)])
+    js.append([r8, r7, teach(), two(True)])
     for jn in js:
         for it in jn:
             if isinstance(it, Txn) and not hasattr(it, 'shape'):
